@@ -112,7 +112,24 @@ fn spell_char(rng: &mut Rng, c: char, style: Style, bytes_mode: bool) -> String 
 }
 
 pub fn spell_string(rng: &mut Rng, s: &str, style: Style) -> String {
-    let body: String = s.chars().map(|c| spell_char(rng, c, style, false)).collect();
+    let cs: Vec<char> = s.chars().collect();
+    let mut body = String::new();
+    for (i, &c) in cs.iter().enumerate() {
+        // inside a triple-quoted literal the delimiter's quote character may stand for itself as
+        // long as the lexer cannot take it for (part of) the closing delimiter: not last, not
+        // next to another one
+        let own_quote_verbatim = style.triple()
+            && c == style.quote()
+            && i + 1 < cs.len()
+            && cs[i + 1] != c
+            && !body.ends_with(c)
+            && rng.chance(2, 3);
+        if own_quote_verbatim {
+            body.push(c);
+        } else {
+            body.push_str(&spell_char(rng, c, style, false));
+        }
+    }
     format!("{d}{body}{d}", d = style.delim())
 }
 
@@ -179,6 +196,14 @@ pub fn generate(tier: Tier, rng: &mut Rng) -> Vec<Case> {
         push(&mut out, &spec, format!("b{d}a\\{o}b{d}"), Some(want_bytes(format!("a{o}b").as_bytes())), vec!["escape", "other-quote", "bytes"]);
         // the other quote verbatim
         push(&mut out, &spec, format!("{d}a{o}b{d}"), Some(want_str(&format!("a{o}b"))), vec!["verbatim-other-quote"]);
+        // the delimiter's quote verbatim inside a triple-quoted literal, plain and raw
+        if style.triple() {
+            for body in [format!("a{q}b"), format!("{q}a"), format!("a{q}{q}b"), format!("{q}{q}a{q}b"), format!("a{q}\nb{q}c"), format!("{o}{q}{o}x")] {
+                let denoted = body.replace("\\n", "\n");
+                push(&mut out, &spec, format!("{d}{body}{d}"), Some(want_str(&denoted)), vec!["triple-own-quote"]);
+                push(&mut out, &spec, format!("r{d}{body}{d}"), Some(want_str(&body)), vec!["triple-own-quote", "raw"]);
+            }
+        }
         // unicode escapes
         let us: Vec<u32> = match tier {
             Tier::Thorough => (0..=0xffffu32).collect(),
@@ -224,8 +249,7 @@ pub fn generate(tier: Tier, rng: &mut Rng) -> Vec<Case> {
         let style = *rng.pick(&STYLES);
         let nontriv = s.chars().any(|c| !c.is_ascii_alphanumeric());
         let tag = if nontriv { "random" } else { "plain" };
-        // triple-quoted bodies containing their own quote character are the known finding D5;
-        // they are spelled anyway (the predicate holds them to the specification)
+        // (triple-quoted bodies may contain their own quote character verbatim: spell_string)
         push(&mut out, &spec, spell_string(rng, &s, style), Some(want_str(&s)), vec![tag, "string"]);
         // raw forms: spellable iff the body has no delimiter, no line break (one-line forms)
         let q = style.quote();
